@@ -77,7 +77,11 @@ RULE = ("Model-based, two generated families over the reference tor world (snaps
         "a circuit that is gone, Circuit unknown to the state, non-circuit, None, DO_NOT_ATTACH, raises} x "
         "{returned at once, Deferred already fired, Deferred/awaited value delivered at a later step}; stream "
         "kinds NEW, NEWRESOLVE, *.exit targets, names that merely contain '.exit', streams first seen mid-life; "
-        "one Circuit.stream_via() attempt while a user attacher is installed. "
+        "one Circuit.stream_via() attempt while a user attacher is installed; a late answer may name a circuit "
+        "that did not exist when the stream appeared (launched by tor, or obtained with state.build_circuit(), and "
+        "driven to BUILT or only part of the way between question and answer); attacher objects may be falsy "
+        "(class with __len__ -> 0 or __bool__ -> False) and the PriorityAttacher may be installed while still "
+        "empty, its sub-attachers being added by later steps. "
         "'via': several concurrent Circuit.stream_via()/TorCircuitEndpoint connects over fake SOCKS connections "
         "with distinct local addresses (stages: TCP connect, method reply, tor announces the stream, SOCKS "
         "reply), interleaved with unrelated streams to the same target whose source differs in port or host "
@@ -109,6 +113,11 @@ ASSUMPTIONS = [
     "are not forbidden",
     "non-circuit answers are truthy objects (str, int, dict); an unknown circuit is a fresh Circuit object "
     "whose id the state does not list",
+    "only None removes the attacher: an attacher object that happens to be falsy (defines __len__/__bool__) "
+    "is installed like any other ('while a stream attacher is installed' - truthiness is not part of it); an "
+    "empty PriorityAttacher has no preference (ATTACHSTREAM id 0) and asks sub-attachers added later",
+    "a circuit the controller asked for with build_circuit() counts as known once tor's EXTENDED reply "
+    "arrived; it is a valid answer only when tor has reported it BUILT",
     "set_attacher(same attacher) may or may not re-send __LeaveStreamsUnattached=1; removal is only generated "
     "while an attacher is installed; the SETCONF key is compared case-insensitively, the value after tor's "
     "unquoting",
@@ -1455,8 +1464,8 @@ def priority_cases(n, top):
 
 
 def run(ctx):
-    ctx.search("attacher", attacher_cases(), quick=850, thorough=4000)
-    ctx.search("via", via_cases(), quick=750, thorough=3000)
+    ctx.search("attacher", attacher_cases(), quick=800, thorough=4000)
+    ctx.search("via", via_cases(), quick=700, thorough=3000)
     ctx.enumerate("attacher", priority_cases(3, 3), name="priority-orders-3")
     if not ctx.quick():
         ctx.enumerate("attacher", priority_cases(4, 4), name="priority-orders-4")
